@@ -61,6 +61,8 @@ struct LibcWatch {
     long fail_at = 0; bool fail_from = false; uint64_t requests = 0;
     std::unordered_map<void*, size_t> live;
     void reset() { allocs = frees = bad_free = failed = 0; fail_at = 0; fail_from = false; requests = 0; }
+    // clear() of an unordered_map walks all buckets: after one case with 70 000 library allocations every later clear would cost that much
+    void clear_live() { if (live.bucket_count() > 2048) std::unordered_map<void*, size_t>().swap(live); else live.clear(); }
 };
 LibcWatch& libc_watch();
 extern thread_local int tl_in_lib;      // >0 while a library call is in progress on this thread
